@@ -1,8 +1,10 @@
 # -*- coding: utf-8 -*-
 """C05 Kekule and aromatic forms describe the same molecule -- protocol, output alphabet, rule-table clauses."""
 from ..r_protocol import run_protocol
-from ..r_rings import rule_output_alphabet
+from ..r_rings import rule_output_alphabet, rule_tautomer_donor_guard
 from ..r_rules import rule_tables_applicable
+
+from ..r_domains import rule_domains
 
 LEVEL = 'other'
 
@@ -12,4 +14,6 @@ def run(ck, repo):
     run_protocol(ck, repo, 'C05.D1-protocol', only_entries={'Kekule.kekule', 'Kekule.enumerate_kekule', 'Thiele.thiele'})
     ck.floor('C05.D1-protocol', 8)
     rule_output_alphabet(ck, repo, 'C05.D2-output-alphabet')
+    rule_tautomer_donor_guard(ck, repo, 'C05.D2-tautomer-hydrogen-move')
     rule_tables_applicable(ck, repo, 'C05.D3-repair-rules')
+    rule_domains(ck, repo, 'C05.D3-index-domains', only=['__fix_rings'])
